@@ -32,7 +32,41 @@ from .instruments import (
 REPO = os.environ.get("VERIF_REPO", "/repo")
 
 
+# Calls of asyncio entry points made *by library code* (the frame that calls belongs to an asyncstdlib module).  The
+# watch is installed before the library is imported for the first time, so that names the library imports from
+# asyncio are the watched ones.  The harness' own use of asyncio (eng_aio) is not recorded.
+LIB_ASYNCIO_CALLS = []
+
+
+def _install_asyncio_watch():
+    import asyncio  # noqa: PLC0415
+    import asyncio.events as ev  # noqa: PLC0415
+    import asyncio.tasks as tasks  # noqa: PLC0415
+
+    targets = [(asyncio, n) for n in ("get_running_loop", "get_event_loop", "new_event_loop", "ensure_future", "create_task", "sleep",
+                                      "shield", "wait_for", "gather", "wrap_future", "run_coroutine_threadsafe", "to_thread", "wait")]
+    targets += [(ev, n) for n in ("get_running_loop", "get_event_loop", "_get_running_loop", "new_event_loop")]
+    targets += [(tasks, n) for n in ("ensure_future", "create_task", "sleep", "shield", "wait_for", "gather")]
+    for mod, name in targets:
+        orig = getattr(mod, name, None)
+        if orig is None or getattr(orig, "_verif_watch", False):
+            continue
+
+        def wrapper(*a, _orig=orig, _name=name, **k):
+            caller = sys._getframe(1).f_globals.get("__name__", "")
+            if caller.startswith("asyncstdlib"):
+                LIB_ASYNCIO_CALLS.append(_name)
+            return _orig(*a, **k)
+
+        wrapper._verif_watch = True
+        wrapper.__name__ = getattr(orig, "__name__", name)
+        wrapper.__wrapped__ = orig
+        setattr(mod, name, wrapper)
+
+
 def load_lib():
+    if "asyncstdlib" not in sys.modules:
+        _install_asyncio_watch()
     if REPO not in sys.path:
         sys.path.insert(0, REPO)
     import asyncstdlib  # noqa: PLC0415
